@@ -20,15 +20,15 @@ CLAIMED = {
          "Trusted: the section 3.2 splitter in the harness.",
          "DESIGN.md 5 C03"),
  "C07": ("runtime monitor: every == impl under catch_unwind vs model equivalence on generated equal / near-equal pairs and triples",
-         "All same-type and cross-type equality impls are run on pairs built to be equal under the documented equivalence (respellings) or to differ by one feature, including escapes whose octets are not UTF-8, and compared in both directions with a model of the documented equivalence; reflexivity, symmetry and transitivity are checked on the library's own answers.",
+         "All same-type and cross-type equality impls are run on pairs built to be equal under the documented equivalence (respellings) or to differ by one feature, including escapes whose octets are not UTF-8, and compared in both directions with a model of the documented equivalence; reflexivity, symmetry and transitivity are checked on the library's own answers; pairs include fully encoded hosts, sentinel octets and shifted delimiter/escape boundaries, single components of up to 4 KiB differing only at the end, long shared path prefixes, the product of authority shapes, and values that alias one buffer; != is probed next to ==.",
          "Trusted: the model equivalence (harness/src/model.rs eq_*).",
          "DESIGN.md 5 C07"),
  "C08": ("runtime monitor: Eq/Ord/Hash laws and real HashSet/BTreeSet lookups through every Borrow view",
-         "For pairs and batches of related values the laws eq=>hash, cmp==Equal<=>eq, antisymmetry, partial_cmp==Some(cmp), borrowed==owned are checked with a fixed hasher and DefaultHasher; batches are sorted with the library's cmp and every i<j pair re-checked; owned values are inserted into hashed and ordered collections and looked up through each Borrow implementation between the library's own types.",
+         "For pairs and batches of related values the laws eq=>hash, cmp==Equal<=>eq, antisymmetry, partial_cmp==Some(cmp), borrowed==owned, and the operators < <= > >= != and max/min agreeing with cmp/==, are checked with a fixed hasher that separates consecutive write calls (a Hash impl whose call sequence depends on the spelling is seen) and DefaultHasher; batches are sorted with the library's cmp and every i<j pair re-checked; owned values are inserted into hashed and ordered collections and looked up through each Borrow implementation between the library's own types.",
          "Trusted: std collections. Borrow<str>/Borrow<[u8]> and DataUrlBuf are outside the property and not tested.",
          "DESIGN.md 5 C08"),
  "C12": ("runtime monitor: segment iterators driven through all front/back interleavings vs '/'-split model",
-         "segments() is driven by every 2^(n+2) interleaving of next/next_back for all paths over a 5-segment alphabet up to a segment bound (random masks for long random paths), always two steps past the end, and the derived queries are compared with values computed from the '/'-split sequence.",
+         "segments() is driven by every 2^(n+2) interleaving of next/next_back for all paths over a 5-segment alphabet up to a segment bound (random masks for long random paths), always two steps past the end, and by adaptor programs (nth/nth_back incl. indices near usize::MAX, skip, step_by, folds, finds, take, peekable, partition ...) checked against a deque model; the derived queries are compared with values computed from the '/'-split sequence.",
          "Trusted: the '/'-split model.",
          "DESIGN.md 5 C12"),
  "C19": ("runtime monitor: percent-decoded views under catch_unwind vs octet model over all %XX patterns",
